@@ -431,7 +431,7 @@ pub fn check_one(ctx: &mut Ctx, family: &str, idx: u64, p: &PktM) {
 
 /// TXT values made by each public constructor (some cache their encoded size), followed by another record: RDLENGTH must
 /// equal the bytes written, whichever constructor and whichever entry point.
-fn txt_ctor_case(ctx: &mut Ctx, idx: u64) {
+pub fn txt_ctor_case(ctx: &mut Ctx, idx: u64, parse_back: bool) {
     use simple_dns::rdata::{RData, A, TXT};
     use simple_dns::{CharacterString, Name, ResourceRecord, CLASS};
     const EDGES: [usize; 17] = [0, 1, 2, 253, 254, 255, 256, 507, 508, 509, 510, 761, 762, 763, 1016, 1270, 1275];
@@ -531,7 +531,20 @@ fn txt_ctor_case(ctx: &mut Ctx, idx: u64) {
         match problem {
             Some(pr) => ctx.violation("rdlength", &format!("framing:{}:txt-constructor:{}", what, names[ctor]),
                 format!("TXT made by {} from {} bytes of text, written by {}: {}", names[ctor], len, what, pr), json!({"family": "txt-ctor", "idx": idx, "constructor": names[ctor], "text_bytes": len, "bytes": hex(&out[..out.len().min(700)])})),
-            None => ctx.count("txt_constructor_outputs_well_framed"),
+            None => {
+                ctx.count("txt_constructor_outputs_well_framed");
+                if parse_back {
+                    // the library reads its own output back as the same two records with the same character-strings
+                    let wire: Vec<Vec<u8>> = decode_typed(&out).ok().and_then(|t| match &t.msg.secs[0][0].rd { Rd::Fields(f) => match &f[0] { F::List(l) => Some(l.clone()), _ => None }, _ => None }).unwrap_or_default();
+                    let back = monitor::guard(|| Packet::parse(&out).map(|p| (p.answers.len(), p.answers.first().and_then(|a| match &a.rdata { RData::TXT(t) => Some(t.verif_strings().iter().map(|x| x.to_vec()).collect::<Vec<_>>()), _ => None }))).map_err(|e| format!("{:?}", e)));
+                    match back {
+                        Ok(Ok((2, Some(strings)))) if strings == wire => ctx.count("txt_constructor_outputs_parsed_back"),
+                        other => ctx.violation("roundtrip", &format!("parse-own-output:{}:txt-constructor:{}", what, names[ctor]),
+                            format!("TXT made by {} from {} bytes of text, written by {}, read back as {:?}", names[ctor], len, what, other.map(|r| r.map(|(n, s)| (n, s.map(|v| v.len()))))),
+                            json!({"family": "txt-ctor", "idx": idx, "constructor": names[ctor], "text_bytes": len, "bytes": hex(&out[..out.len().min(700)])})),
+                    }
+                }
+            }
         }
     }
 }
@@ -547,7 +560,7 @@ pub fn run(ctx: &mut Ctx) {
         let nt = if ctx.slow_tool { 60 } else { tier.pick(4_000u64, 200_000u64) };
         for idx in 0..nt {
             if ctx.take("txt-ctor", idx) {
-                txt_ctor_case(ctx, idx);
+                txt_ctor_case(ctx, idx, false);
             }
         }
     }
@@ -578,6 +591,26 @@ pub fn run(ctx: &mut Ctx) {
         };
         ctx.sample("matrix", || pkt_json(&p));
         check_one(ctx, "matrix", idx, &p);
+    }
+    // records holding OPT data inside the sections (pushed by hand, or left behind by the parser when a message carried several),
+    // with and without EDNS data set on the packet as well: every one of them is an entry that is written and counted
+    for idx in 0..if ctx.slow_tool { 4 } else { tier.pick(600u64, 30_000u64) } {
+        if !ctx.take("opt-in-section", idx) {
+            continue;
+        }
+        let mut r = ctx.rng("opt-in-section", idx);
+        let mut g = Gen::new(&mut r, Cfg { max_entries: 2, ..Default::default() });
+        let mut p = g.packet();
+        p.edns = if idx % 4 == 0 { None } else { Some(g.edns()) };
+        for k in 0..1 + idx % 2 {
+            let opts = if (idx + k) % 3 == 0 { vec![] } else { let n = g.r.usize(0, 9); vec![(g.r.int(16) as u16, g.r.bytes(n))] };
+            let rec = RecSem { name: vec![], rtype: 41, class: 1, flush: false, ttl: g.r.int(32) as u32, rd: Rd::Fields(vec![F::Pairs(opts)]) };
+            let sec = if (idx / 2 + k) % 5 == 0 { 0 } else { 2 };
+            let at = g.r.usize(0, p.secs[sec].len());
+            p.secs[sec].insert(at, rec);
+        }
+        ctx.add("packets_with_opt_records_inside_sections", 1);
+        check_one(ctx, "opt-in-section", idx, &p);
     }
     // an extended response code (BADVERS = 16) on a packet that carries no EDNS data: the header can only hold the low
     // nibble, and whatever the library does about the rest, the counts must still describe exactly what was written
